@@ -265,11 +265,15 @@ class Verifier:
                 dom = domain_for(ob.mode)
                 if ob.goal == "COVER":
                     text = dom.emit(ob.decl, ob.bounds, list(ob.hyps), False, slice_hyps=False)
-                    r = smt.run_portfolio(text, timeout=min(self.timeout, 10), want_model=False, need=1, use_cache=False)
+                    r = smt.run_portfolio(text, timeout=min(self.timeout, 4), want_model=False, need=1, use_cache=False)
                     # sat = reachable (good); unsat = vacuous (bad); unknown = not decided (tolerated, reported)
                     if r.status == "sat":
                         r2 = smt.Result("unsat", r.solver, r.secs, per_solver=r.per_solver)
                         r2.cover = "reachable"
+                    elif r.status == "unsat" and ob.name.split("#")[1].startswith("cover.return"):
+                        # an infeasible path (e.g. a comparison `byte < 0`): fine, unless every return of the function is dead
+                        r2 = smt.Result("unsat", r.solver, r.secs, per_solver=r.per_solver)
+                        r2.cover = "deadpath"
                     elif r.status == "unsat":
                         r2 = smt.Result("sat", r.solver, r.secs, "VACUOUS: hypotheses are contradictory", per_solver=r.per_solver)
                         r2.cover = "vacuous"
@@ -281,7 +285,10 @@ class Verifier:
                     return ob
                 if ob.mode == "ring":
                     return self.discharge_ring(ob, dom)
-                text = dom.emit(ob.decl, ob.bounds, list(ob.hyps), ob.goal)
+                if getattr(ob, "nia", False):
+                    text = dom.emit(ob.decl, ob.bounds, list(ob.hyps), ob.goal, nia=True)
+                else:
+                    text = dom.emit(ob.decl, ob.bounds, list(ob.hyps), ob.goal)
                 ob.smt_size = len(text)
                 ob.smt_hash = hashlib.sha256(text.encode()).hexdigest()[:16]
                 r = smt.run_portfolio(text, timeout=self.timeout, need=self.need)
@@ -299,6 +306,16 @@ class Verifier:
             for i, ob in enumerate(ex.map(work, todo)):
                 if progress:
                     progress(ob)
+        # vacuity: a function (under a partition) none of whose returns is reachable proves nothing
+        groups = {}
+        for ob in obligations:
+            if ob.kind == "cover" and "cover.return" in ob.name and ob.result is not None:
+                groups.setdefault((ob.fn, ob.part), []).append(ob)
+        for (fn, part), obs in groups.items():
+            if all(getattr(o.result, "cover", "") == "deadpath" for o in obs):
+                o = obs[0]
+                o.result = smt.Result("sat", o.result.solver, o.result.secs, "VACUOUS: no return of %s is reachable under its precondition" % fn)
+                o.result.cover = "vacuous"
         return obligations
 
 
